@@ -235,11 +235,18 @@ func CheckAll(run *report.Run, p *load.Program, ruleID string) {
 }
 
 // CheckNamed checks the named constants only.  Names are qualified by the
-// module-relative package path ("curve.constEDWARDS_D", "internal/field.SQRT_M1",
-// "internal/field.(*Element).One" for the literal inside a function,
-// "internal/field.(*Element).Sub#bias" for a bias vector).  A name without a
-// definition, or one that the configuration does not declare although its
-// definition is not optional, is a failure.
+// module-relative package path:
+//
+//	"curve.constEDWARDS_D", "internal/field.SQRT_M1"      package-level literal
+//	"internal/field.(*Element).One", "internal/lattice.ellSquared"   the literal inside a function body
+//	"internal/field.(*Element).Sub#bias", "…(*Element).Neg#bias"     bias limb vector
+//	"internal/field.(*Element).Mul121666#a24"              the (A+2)/4 multiplier in either back end
+//	"asm:curve.v19", "asm:internal/strobe.keccak-rc"       assembly data (first symbol of a group)
+//
+// Aliases (EIGHT_TORSION, ED25519_BASEPOINT_TABLE) are followed.  A name
+// without a definition, or one that the configuration does not declare (also an
+// optional one, since it was requested explicitly), is a failure.  Names() lists
+// the table.
 func CheckNamed(run *report.Run, p *load.Program, ruleID string, names ...string) {
 	if err := SelfCheck(); err != nil {
 		run.Fatal("E-CONST: %v", err)
